@@ -36,6 +36,9 @@ import (
 //	cancel=c   the context given to Engine.Run is cancelled during shoot number c of pool 0 (SIGINT/SIGTERM do that);
 //	           the result is judged after Engine.Wait(); only the Report calls completed before the cancel must be there
 
+// a run of the engine over these toy guns takes milliseconds (a second on a badly loaded machine)
+const engineHang = 25 * time.Second
+
 type engProvider struct {
 	ch chan core.Ammo
 	n  int
@@ -318,7 +321,7 @@ func runEngine(kv map[string]string) string {
 	var runErr error
 	select {
 	case runErr = <-resCh:
-	case <-time.After(60 * time.Second):
+	case <-time.After(engineHang):
 		return "HANG"
 	}
 	// natural end: judge what is there the moment Run returned nil
@@ -344,7 +347,7 @@ func runEngine(kv map[string]string) string {
 	go func() { e.Wait(); close(waited) }()
 	select {
 	case <-waited:
-	case <-time.After(60 * time.Second):
+	case <-time.After(engineHang):
 		return "HANG-wait run=" + runS
 	}
 	made := seq.Load()
